@@ -109,7 +109,10 @@ VALID = {
     "basic-key": [("Abc", "abc"), ("a-b.c", "a-b.c"), ("x", "x")],
     "string-list": [("a b  c", ["a", "b", "c"]), ("x", ["x"]), ("", [])],
     "inet-address": [("host:80", ("host", 80)), ("Host", ("host", None)),
-                     ("8080", ("", 8080)), ("[::1]:80", ("::1", 80))],
+                     ("8080", ("", 8080)), ("[::1]:80", ("::1", 80)),
+                     # a number that is no port is a host name
+                     ("70000", ("70000", None)), ("-1", ("-1", None)),
+                     ("65536", ("65536", None))],
 }
 INVALID = {
     "string": [], "null": [],
